@@ -23,7 +23,7 @@ OUT = storage.PREFIX + 'out.sgz'
 SRC = storage.PREFIX + 'src.sgz'
 
 OPENER_CYCLE = ['path', 'handle', 'preload', 'blob', 'emulator', 'ccs1', 'path', 'blob_preload', 'handle',
-                'emulator_blob', 'preload', 'path']
+                'emulator_blob', 'preload', 'xarray', 'path']
 
 ASSUMPTIONS = [
     'crash model = what C18 states: any prefix of the OS-level write sequence (what CPython buffering actually '
@@ -33,7 +33,8 @@ ASSUMPTIONS = [
     'starts at or beyond the end and returns the available bytes otherwise',
     'get_source_data_hash()/__str__ are not in the battery (the digest is patched in last by construction: C20)',
     f'library version reported to the writer is stubbed to {env.STUB_VERSION}',
-    'three writer runs out of five use the strictly sequential schedule, two a seeded random / PCT schedule (the final '
+    'every converter run is made under the strictly sequential schedule and repeated under three seeded schedules '
+    '(random, PCT, slow I/O); where the OS-level write sequence differs its crash prefixes are examined too (the final '
     'bytes are schedule independent by C16, the order of the OS-level writes need not be)',
 ]
 
@@ -52,10 +53,11 @@ def writer_items(seed, tier, scratch):
     items = []
     for spec in specs:
         workloads.materialise(spec, scratch)
-        # the order in which a multi-threaded writer's bytes reach the OS may depend on the schedule:
-        # two writer runs out of five are made under a seeded non-sequential schedule
+        # (the order in which a multi-threaded writer's bytes reach the OS may depend on the schedule:
+        # one_item() repeats every converter run under three seeded non-sequential schedules and adds the
+        # crash images of any run whose OS-level write sequence differs)
         items.append({'w': 'convert', 'spec': spec, 'buf': rng.choice(workloads.BUFSIZES), 'id': len(items),
-                      'wsched': rng.choice([None, None, None, 'random', 'pct2']), 'wseed': seed})
+                      'wsched': None, 'wseed': seed})
     # every detection mode x every buffer size on one regular SEG-Y (the in-place patch sequences)
     base = dict(route='segy', shape=[5, 6, 20], bits=4, blockshape=[4, 4, -1], fmt=1, il0=1, xl0=1, il_step=1,
                 xl_step=1, data_seed=77)
@@ -65,6 +67,17 @@ def writer_items(seed, tier, scratch):
             specs.append(spec)
             workloads.materialise(spec, scratch)
             items.append({'w': 'convert', 'spec': spec, 'buf': buf, 'id': len(items)})
+    # conversions onto an output path that already holds a complete SGZ of an earlier conversion (same
+    # geometry, other samples; and another geometry): what is on disk while the new one is being written
+    # is a partial file of the new conversion as well
+    for k, (spec_id, old_seed, old_shape) in enumerate(((0, 4242, None), (7, 4243, None), (0, 4244, [13, 9, 40]))):
+        old = dict(specs[spec_id], data_seed=old_seed, id=9100 + k)
+        if old_shape:
+            old['shape'] = old_shape
+        old.pop('src', None)
+        workloads.materialise(old, scratch)
+        items.append({'w': 'convert', 'spec': specs[spec_id], 'buf': [4096, 65536, 512][k], 'id': len(items),
+                      'wsched': None, 'wseed': seed, 'pre': old})
     crop_src = dict(route='numpy', shape=[9, 10, 30], bits=4, blockshape=[4, 4, -1], data_seed=5, id=9001)
     adv_src = dict(route='numpy', shape=[6, 7, 20], bits=2, blockshape=[4, 4, -1], data_seed=6, id=9002)
     for buf in ([4096, 512] if tier == 'quick' else workloads.BUFSIZES):
@@ -80,6 +93,12 @@ def run_writer(item):
     w = item['w']
     if w == 'convert':
         fs = storage.SimFS(bufsize=item['buf'])
+        if item.get('pre'):
+            old, _, _ = filelib.convert(item['pre'])
+            if old is None:
+                return None, None
+            fs.add_file(OUT, old, read_only=False)
+            fs.oslog.append((fs._next_seq(), OUT, 0, 'initial', 0, bytes(old), 'main'))
         fn = workloads.converter_fn(item['spec'], OUT)
     else:
         src, _, _ = filelib.convert(item['spec'])
@@ -155,11 +174,12 @@ def section_boundaries(m, size):
     return sorted(x for x in out if 0 <= x < size)
 
 
-def crash_images(oslog, final, m, rng, exhaustive=False, max_images=None):
-    """Returns [(descriptor, bytes)] — deduplicated, never equal to the complete file.  With
-    max_images: every prefix, every first/last-byte cut and every section-boundary truncation is
-    kept, the remaining cuts are sampled by the seeded stream."""
-    seen = {hashlib.sha1(final).digest()}
+def crash_images(oslog, final, m, rng, exhaustive=False, max_images=None, seen=None, truncations=True):
+    """Returns [(descriptor, bytes)] — deduplicated (also against `seen`), never equal to the complete
+    file.  With max_images: every prefix, every first/last-byte cut and every section-boundary
+    truncation is kept, the remaining cuts are sampled by the seeded stream."""
+    seen = seen if seen is not None else set()
+    seen.add(hashlib.sha1(final).digest())
     out = []
     prio = []
 
@@ -174,8 +194,10 @@ def crash_images(oslog, final, m, rng, exhaustive=False, max_images=None):
     files = {}
     k = 0
     for entry in oslog:
-        if entry[3] in ('trunc', 'fsync'):
-            storage.SimFS.apply_fs(files, entry)
+        if entry[3] in ('trunc', 'fsync', 'initial'):
+            storage.SimFS.apply_fs(files, entry)          # 'initial': what the path held before the writer ran
+            if entry[3] == 'initial':
+                seen.add(hashlib.sha1(entry[5]).digest())  # the old complete file is not a partial file
             continue
         if OUT in files:
             emit(['prefix', k], files[OUT], 0)
@@ -190,8 +212,10 @@ def crash_images(oslog, final, m, rng, exhaustive=False, max_images=None):
     if bytes(files.get(OUT, b'')) != final:
         raise core.HarnessError('OS-level write log does not rebuild the final file')
     size = len(final)
-    bounds = set(section_boundaries(m, size))
-    if exhaustive:
+    bounds = set(section_boundaries(m, size)) if truncations else set()
+    if not truncations:
+        ns = []
+    elif exhaustive:
         ns = range(size)
     else:
         ns = set(bounds)
@@ -215,12 +239,13 @@ def crash_images(oslog, final, m, rng, exhaustive=False, max_images=None):
 
 
 def rebuild_image(oslog, final, desc):
+    desc = [desc[0].split('@')[0]] + list(desc[1:])
     if desc[0] == 'trunc':
         return final[:desc[1]]
     files = {}
     k = 0
     for entry in oslog:
-        if entry[3] in ('trunc', 'fsync'):
+        if entry[3] in ('trunc', 'fsync', 'initial'):
             storage.SimFS.apply_fs(files, entry)
             continue
         if k == desc[1]:
@@ -257,7 +282,7 @@ def eval_image(img, opener, calls, truth, m):
 
     def fn():
         for call in calls:
-            if kind == 'reader' and call[0].startswith('em_'):
+            if not readers.applicable(kind, call):
                 continue
             fs.reqlog.clear()
             got = readers.fresh_outcome(fs, opener, call)
@@ -279,6 +304,11 @@ def eval_image(img, opener, calls, truth, m):
 
 def calls_for(m, rng, n_extra):
     calls = battery.fixed_battery(m, 'emulator')
+    if readers.HAVE_XARRAY and not m['is_2d']:
+        n_il, n_xl, n_s = m['n_il'], m['n_xl'], m['n_s']
+        calls += [['xr_isel', [0, n_il, None], [0, n_xl, None], [0, n_s, None]],
+                  ['xr_isel', [n_il // 2, n_il // 2 + 1, None], [0, n_xl, None], [max(0, n_s - 5), n_s, None]],
+                  ['xr_isel', [0, 1, None], [n_xl - 1, n_xl, None], [0, n_s, None]]]
     seen = {repr(c) for c in calls}
     for _ in range(n_extra):
         c = battery.gen_call(rng, m, rng.choice(['reader', 'reader', 'emulator']))
@@ -297,7 +327,7 @@ def one_item(ctx, item):
     seed = ctx['seed']
     rng = core.stream(seed, item['id'], 'faults')
     rec = {'id': item['id'], 'w': item['w'], 'images': 0, 'pairs': 0, 'violations': [], 'skipped': None,
-           'img_kinds': collections.Counter(), 'layout': None, 'raised': 0}
+           'img_kinds': collections.Counter(), 'layout': None, 'raised': 0, 'openers': collections.Counter()}
     final, oslog = run_writer(item)
     if final is None:
         rec['skipped'] = 'writer refused the configuration'
@@ -313,20 +343,37 @@ def one_item(ctx, item):
         rec['skipped'] = 'degenerate axes'
         return rec
     rec['layout'] = f"{m['kind']}/{m['layout']}"
-    rec['os_writes'] = sum(1 for e in oslog if e[3] not in ('trunc', 'fsync'))
+    rec['os_writes'] = sum(1 for e in oslog if e[3] not in ('trunc', 'fsync', 'initial'))
     calls = calls_for(m, core.stream(seed, item['id'], 'workload'), ctx['n_extra'])
-    truth = readers.truth_table(final, {'reader': [c for c in calls if not c[0].startswith('em_')],
-                                        'emulator': calls})
+    truth = readers.truth_table(final, {k: [c for c in calls if readers.applicable(k, c)]
+                                        for k in ('reader', 'emulator', 'xarray')})
+    seen = set()
     images = crash_images(oslog, final, m, rng, exhaustive=item.get('exhaustive', False),
-                          max_images=ctx['max_images'])
+                          max_images=ctx['max_images'], seen=seen)
+    rec['alt_schedules'] = 0
+    if item['w'] == 'convert':
+        # the same conversion under other schedules: where the bytes reach the OS in another order, the
+        # prefixes of that order are crash states too
+        shape_of = lambda log: [(e[1], e[3], e[4], len(e[5])) for e in log if e[3] not in ('fsync', 'initial')]
+        for j, pol in enumerate(('random', 'pct2', 'ioslow')):
+            alt = dict(item, wsched=pol, wseed=f"{item.get('wseed', 0)}:{j}")
+            final2, oslog2 = run_writer(alt)
+            if final2 is None or final2 != final or shape_of(oslog2) == shape_of(oslog):
+                continue             # (different final bytes are C16's finding, not examined here)
+            rec['alt_schedules'] += 1
+            more = crash_images(oslog2, final, m, rng, max_images=ctx['max_images'], seen=seen, truncations=False)
+            images += [([d[0] + '@' + pol + ':' + str(j)] + d[1:], img) for d, img in more]
     sig_seen = set()
     for i, (desc, img) in enumerate(images):
         opener = OPENER_CYCLE[(i + item['id']) % len(OPENER_CYCLE)]
+        if opener == 'xarray' and (m['is_2d'] or not readers.HAVE_XARRAY):
+            opener = 'path'
         common.mark({'image': desc, 'opener': opener})
         bad, n = eval_image(img, opener, calls, truth, m)
         rec['images'] += 1
         rec['pairs'] += n
-        rec['img_kinds'][desc[0]] += 1
+        rec['img_kinds'][desc[0].split('@')[0]] += 1
+        rec['openers'][opener] += 1
         for call, got, want, sec in bad:
             sig = signature(m, call, sec, got)
             if sig in sig_seen and len(rec['violations']) > 40:
@@ -335,6 +382,7 @@ def one_item(ctx, item):
             rec['violations'].append({'signature': sig, 'image': desc, 'opener': opener, 'call': call,
                                       'got': repr(got)[:200], 'want': repr(want)[:200], 'size': len(img)})
     rec['img_kinds'] = dict(rec['img_kinds'])
+    rec['openers'] = dict(rec['openers'])
     return rec
 
 
@@ -346,9 +394,14 @@ def replay_doc(doc, scratch):
     item = doc['item']
     if item['w'] == 'convert':
         workloads.materialise(item['spec'], scratch)
+        if item.get('pre'):
+            workloads.materialise(item['pre'], scratch)
     final, oslog = run_writer(item)
     if final is None:
         raise common.HarnessFailure('writer of the replayed item failed')
+    if '@' in str(doc['image'][0]):           # image of a run under another schedule: policy:index
+        pol, j = doc['image'][0].split('@')[1].split(':')
+        _, oslog = run_writer(dict(item, wsched=pol, wseed=f"{item.get('wseed', 0)}:{j}"))
     m = filelib.read_meta(final)
     call = doc['call']
     kind = readers.OPENERS[doc['opener']]['kind']
@@ -435,6 +488,8 @@ def _main(tier, seed, scratch, t0):
     evaluations = 0
     images = 0
     img_kinds = collections.Counter()
+    openers = collections.Counter()
+    wscheds = collections.Counter()
     layouts = collections.Counter()
     writers = collections.Counter()
     skipped_items = collections.Counter()
@@ -453,6 +508,8 @@ def _main(tier, seed, scratch, t0):
         images += rec['images']
         os_writes += rec.get('os_writes', 0)
         img_kinds.update(rec['img_kinds'])
+        openers.update(rec.get('openers', {}))
+        wscheds['writer_runs_with_another_os_write_order'] += rec.get('alt_schedules', 0)
         layouts[rec['layout']] += 1
         writers[rec['w']] += 1
         if len(samples) < 3 and rec['images']:
@@ -466,10 +523,11 @@ def _main(tier, seed, scratch, t0):
         sig = 'worker_crash'
         viols.setdefault(sig, []).append((None, {'signature': sig, 'crash': c}))
 
-    if lost:
+    known = common.load_known(PID)
+    if lost and not any(sig not in known for sig in viols):
+        # nothing found, but part of the fixed workload produced nothing to examine: not a pass
         common.harness_exit('fixed writer runs produced no usable file, the check cannot vouch for anything: '
                             + '; '.join(lost[:5]))
-    known = common.load_known(PID)
     reported = []
     by_id = {it['id']: it for it in items}
     for sig, lst in sorted(viols.items()):
@@ -504,6 +562,8 @@ def _main(tier, seed, scratch, t0):
         'items_skipped_for_budget': len(skipped),
         'os_level_writes_total': os_writes,
         'crash_image_kinds': dict(img_kinds),
+        'images_per_way_of_opening': dict(openers),
+        'writer_schedules': dict(wscheds),
         'layouts': dict(layouts),
         'exhaustive': False,
         'exhaustive_note': 'per writer run the prefixes are complete; torn / truncation cuts are at sector and section '
@@ -531,6 +591,8 @@ def _clean(item):
     it = dict(item)
     if 'spec' in it:
         it['spec'] = {k: v for k, v in it['spec'].items() if k != 'src'}
+    if it.get('pre'):
+        it['pre'] = {k: v for k, v in it['pre'].items() if k != 'src'}
     return it
 
 
